@@ -135,3 +135,123 @@ def c05_1b(run):
             else:
                 run.prove(f'unchanged on Err {lab}', p.pc, z3.BoolVal(post.discr == state))
     run.require_reached(*run.cur.reach)
+
+
+# ----------------------------------------------------------------------------------------------------------------- C05-2
+import re
+from vlib import actions as A
+from mirsym.engine import ok, err
+
+
+def eff(name, is_async, okval=lambda ctx, s: (), can_fail=True, kind='Result'):
+    """an effect oracle: logs its name (order matters), succeeds or fails by a fresh Bool"""
+    def h(ctx):
+        st = ctx.st
+        n = sum(1 for e in st.log if e[0] == 'eff' and e[1] == name)
+        okv = z3.Bool(f'{name}_ok_{n}')
+        st.log.append(('eff', name, okv if (can_fail and kind != 'plain') else z3.BoolVal(True)))
+        if kind == 'plain':
+            alts = [(None, (lambda s2: okval(ctx, s2)))]
+        elif kind == 'Option':
+            alts = [(okv, (lambda s2: some(okval(ctx, s2)))), (z3.Not(okv), none())]
+        elif can_fail:
+            alts = [(okv, (lambda s2: ok(okval(ctx, s2)))), (z3.Not(okv), (lambda s2: err(Obj('eyre::Report', kind='error'))))]
+        else:
+            alts = [(None, (lambda s2: ok(okval(ctx, s2))))]
+        if is_async:
+            return [(None, M.thunk_future(lambda ex, s2, fut: alts))]
+        return alts
+    return h
+
+
+def app_hooks():
+    R = re.compile
+    vec = lambda ty: (lambda ctx, s: M.new_vec(ty, []))
+
+    def h_expanded(ctx, s):
+        o = Obj('ExpandedBlockData')
+        return o
+
+    def h_commit(ctx):
+        ctx.st.log.append(('eff', 'generate_commitments', z3.BoolVal(True)))
+        return [(None, B.struct(ctx.ex, 'GeneratedCommitments', rollup_datas_root=z3.BitVec('expected_datas_root', 256), rollup_ids_root=z3.BitVec('expected_ids_root', 256)))]
+    return [
+        (R(r'(^|::)App::update_state_for_new_round$'), eff('reset', False, kind='plain')),
+        (R(r'(^|::)App::uses_data_item_enum$'), lambda ctx: [(None, z3.Bool('uses_data_item_enum'))]),
+        (R(r'(^|::)App::vote_extensions_enabled$'), eff('vote_extensions_enabled', True, lambda c, s: z3.Bool('vote_extensions_enabled'))),
+        (R(r'ExpandedBlockData::new_from_(typed|untyped)_data$'), eff('parse_block_data', False, h_expanded)),
+        (R(r'StateRead>::object_get::<Vec<ExecutedTransaction>>$'), eff('read_cached_executed_txs', False, vec('Vec<ExecutedTransaction>'), kind='Option')),
+        (R(r'ProposalHandler::validate_proposal(::<.*>)?$'), eff('validate_extended_commit', True)),
+        (R(r'(^|::)App::pre_execute_transactions$'), eff('pre_execute', True, vec('Vec<ChangeHash>'))),
+        (R(r'^(app::)?ensure_upgrade_change_hashes_as_expected$'), eff('check_upgrade_hashes', False)),
+        (R(r'^(app::)?construct_checked_txs(::<.*>)?$'), eff('construct_checked_txs', True, vec('Vec<Arc<CheckedTransaction>>'))),
+        (R(r'(^|::)App::process_proposal_tx_execution$'), eff('execute_txs', True, vec('Vec<ExecutedTransaction>'))),
+        (R(r'(^|::)App::execute_transaction$'), eff('execute_txs', True, vec('Vec<Event>'))),
+        (R(r'(^|::)App::post_execute_transactions$'), eff('post_execute', True, lambda c, s: Obj('SequencerBlock', kind='opaque'))),
+        (R(r'^(proposal::commitment::)?generate_rollup_datas_commitment::<.*>$'), h_commit),
+        (R(r'get_cached_block_deposits$'), lambda ctx: [(None, M.new_map('HashMap<RollupId, Vec<Deposit>>', []))]),
+        (R(r'(^|::)Metrics::\w+$'), lambda ctx: [(None, ())]), (R(r'EventBus::\w+$'), lambda ctx: [(None, ())]),
+        (R(r'ExtendedCommitInfoWithProof::\w+$'), lambda ctx: [(None, B.cell(Obj('ExtendedCommitInfoWithCurrencyPairMapping', kind='opaque')))]),
+        (R(r'^<tendermint::abci::request::(ProcessProposal|FinalizeBlock) as Clone>::clone$'), lambda ctx: [(None, ctx.ex.copy_val(ctx.ex.deref_val(ctx.st, ctx.args[0])))]),
+        (R(r'(^|::)Height::value$'), lambda ctx: [(None, ctx.ex.deref_val(ctx.st, ctx.args[0]))]),
+        (R(r'^(telemetry::display::)?base64|account::Id::as_bytes$'), lambda ctx: [(None, Obj('b64'))]),
+        (R(r'BlockSizeConstraints::new_unlimited_cometbft$'), lambda ctx: [(None, Obj('BlockSizeConstraints', kind='opaque'))]),
+    ]
+
+
+EXEC_STEPS = ('validate_extended_commit', 'pre_execute', 'check_upgrade_hashes', 'construct_checked_txs', 'execute_txs', 'generate_commitments')
+
+
+@obligation('C05', 'C05-2 process_proposal: either the cached execution of the identical prepared proposal is reused, or the app state is reset to the committed snapshot BEFORE anything of the block is executed')
+def c05_2(run):
+    ex = loader.load(['astria-sequencer'], scalar_types=SCALARS, dep_adts=['tendermint'], hooks=app_hooks())
+    cands = [n for n in ex.fns if n.endswith('::process_proposal') and 'closure' not in n and ex.impl_self(n) == (None, 'App')]
+    if len(cands) != 1:
+        raise Inconclusive(f'App::process_proposal not found: {cands}')
+    run.bound(states='all 6 ExecutionState variants with symbolic payloads', request='all 7 fingerprint fields symbolic', steps='every step of block handling is an oracle that succeeds or fails; only their ORDER and the skip decision are decided here')
+    run.assume('update_state_for_new_round, pre_execute_transactions, process_proposal_tx_execution, post_execute_transactions etc. are effect oracles; the state machine (execution_state.rs) is executed from MIR')
+    n_skip = n_exec = 0
+    for state in STATES:
+        m, cvals, _ = machine(ex, state)
+        rvals = {}
+        for name, ty in FIELDS:
+            b = ex.scalar_bits(ty)
+            rvals[name] = z3.BitVec(f'req_{name}', b) if b else opaque(ty, f'req_{name}')
+        if isinstance(rvals['proposed_last_commit'], Obj):
+            rvals['proposed_last_commit'].ty = 'std::option::Option<tendermint::abci::types::CommitInfo>'
+        req = B.struct(ex, 'tendermint::abci::request::ProcessProposal', **rvals)
+        app = B.struct(ex, 'app::App', execution_state=m)
+        st = ex.start(cands[0], [B.cell(app), req, Obj('Storage', kind='opaque')])
+        same = proposals_equal(cvals, rvals)
+        for i, p in enumerate(run.explore(ex, st, poll=True, allow_havoc=DEFAULT_CTORS + (r'^Arguments::|fmt::', r'SequencerBlock'))):
+            lab = f'[{state}, path {i}]'
+            if p.kind != 'return':
+                run.prove(f'no panic {lab}', p.pc, z3.BoolVal(False), detail=p.info); continue
+            kind, r = A.poll_result(p)
+            effs = [(e[1], e[2]) for e in p.log if e[0] == 'eff']
+            names = [n for n, _ in effs]
+            run.sample({'pre': state, 'path': i, 'result': kind, 'effects': names})
+            execd = [j for j, n in enumerate(names) if n in EXEC_STEPS]
+            resets = [j for j, n in enumerate(names) if n == 'reset']
+            cache = [j for j, n in enumerate(names) if n == 'read_cached_executed_txs']
+            may_skip = z3.And(z3.BoolVal(state in ('Prepared', 'PreparedValid')), same)
+            claim = []
+            if execd:
+                n_exec += 1
+                claim += [z3.BoolVal(len(resets) == 1 and resets[0] < execd[0] and not cache), z3.Not(may_skip)]
+            if cache:
+                n_skip += 1
+                claim += [z3.BoolVal(not resets and not execd), may_skip]
+            if resets and not execd:
+                claim.append(z3.BoolVal(not cache))
+            if 'post_execute' in names:
+                pj = names.index('post_execute')
+                prior_ok = z3.And(*[o for n, o in effs[:pj]])
+                claim += [prior_ok, z3.BoolVal(bool(cache) or all(s in names[:pj] for s in ('pre_execute', 'check_upgrade_hashes', 'construct_checked_txs', 'execute_txs', 'generate_commitments')))]
+            if kind == 'Ok':
+                claim += [z3.BoolVal('post_execute' in names), z3.And(*[o for _, o in effs])]
+            run.prove(f'skip only for the identical prepared proposal (cached results, no reset, nothing executed); otherwise exactly one reset before the first execution step; post-execution only after every step succeeded {lab}',
+                      p.pc, z3.And(*claim) if claim else z3.BoolVal(True))
+    if not n_skip or not n_exec:
+        raise Inconclusive(f'vacuity: skip paths {n_skip}, executing paths {n_exec}')
+    run.require_reached(*run.cur.reach)
